@@ -15,9 +15,15 @@
 //	tail_exits : (function, flags of the receiver at a normal return when in=false / in=true)
 //	tail_gotos : (function, a GotoInstr{0} can be emitted when in=false / in=true)
 //
-// A call of a compiling method on G with flag v is ASSUMED to leave G.Tail in {v, false}; that every
-// method keeps this promise is what `exits_ok` checks on tail_exits in Coq (induction on the depth of
-// the compile recursion).  Fails loudly on any assignment to a generator's Tail it cannot evaluate.
+//	tail_new_generator, tail_new_subgenerator, tail_after_reset : summaries of the constructors and of Reset
+//
+// NewGenerator, NewSubGenerator and the methods of Generator that are not compiling methods (Reset ..) are
+// executed first; a call of one of them applies its own summary (nothing about them is built in, except
+// that new(Generator) has Tail = false).  A call of a compiling method (Generate*/generate*) on G with flag
+// v is ASSUMED to leave G.Tail in {v, false}; that every method keeps this promise is what `exit_ok`
+// checks on tail_exits in Coq (induction on the depth of the compile recursion).  A local closure
+// (GenerateInclude's sourceItem) is executed at every call of it (a recursive call inside it is skipped).  Fails loudly on any assignment to a
+// generator's Tail it cannot evaluate.
 package main
 
 import (
@@ -131,6 +137,12 @@ type interp struct {
 	gotos       *[2]bool
 	deferBodies []*ast.BlockStmt
 	methods     map[string]bool
+	ctor        map[string]*[2]bset // NewGenerator / NewSubGenerator: Tail of the result, by the receiver's flag
+	helper      map[string]*[2]bset // other methods of Generator (Reset ..): the receiver's flag afterwards
+	ctorRet     *bset               // when a constructor is being executed: Tail of the returned generator
+	closures    map[string]*ast.FuncLit // local closures, executed where they are CALLED
+	running     map[string]bool
+	inClosure   int
 	// loop / closure context
 	brk, cont, ret *states
 }
@@ -249,6 +261,21 @@ func (it *interp) calls(e ast.Node, ss states) states {
 	// innermost calls run first: sort by end position
 	sort.SliceStable(list, func(i, j int) bool { return list[i].End() < list[j].End() })
 	for _, c := range list {
+		if id, isId := c.Fun.(*ast.Ident); isId {
+			if fl := it.closures[id.Name]; fl != nil && !it.running[id.Name] {
+				it.running[id.Name] = true
+				save, saveRet := it.ret, it.ctorRet
+				rs := states{}
+				it.ret, it.ctorRet = &rs, nil
+				it.inClosure++
+				rest := it.block(fl.Body.List, ss)
+				it.inClosure--
+				it.ret, it.ctorRet = save, saveRet
+				it.running[id.Name] = false
+				ss = union(rest, rs)
+				continue
+			}
+		}
 		if g, callee, ok := it.isSite(c); ok {
 			args := make([]string, len(c.Args))
 			for i, a := range c.Args {
@@ -281,13 +308,25 @@ func (it *interp) calls(e ast.Node, ss states) states {
 		}
 		if s, ok := c.Fun.(*ast.SelectorExpr); ok {
 			if id, isId := s.X.(*ast.Ident); isId && it.gens[id.Name] {
-				switch s.Sel.Name {
-				case "Reset":
+				if sum, ok := it.helper[s.Sel.Name]; ok {
+					// a method of Generator that is not a compiling method (Reset ..): its own summary
 					out := states{}
 					for _, st := range ss {
-						out.add(st.with(id.Name+".Tail", false))
+						v := st.v[id.Name+".Tail"]
+						r := sum[0]
+						if v {
+							r = sum[1]
+						}
+						if r.f {
+							out.add(st.with(id.Name+".Tail", false))
+						}
+						if r.t {
+							out.add(st.with(id.Name+".Tail", true))
+						}
 					}
 					ss = out
+				}
+				switch s.Sel.Name {
 				case "AddInstruction":
 					if len(c.Args) == 1 && strings.HasPrefix(show(c.Args[0]), "GotoInstr{0}") && len(ss) > 0 {
 						if it.in {
@@ -339,11 +378,37 @@ func (it *interp) assign(lhs ast.Expr, rhs ast.Expr, ss states) states {
 		case *ast.SelectorExpr:
 			name = f.Sel.Name
 		}
-		if name == "NewGenerator" || name == "NewSubGenerator" {
+		if name == "new" && len(c.Args) == 1 && show(c.Args[0]) == "Generator" {
 			it.gens[id.Name] = true
 			out := states{}
 			for _, s := range ss {
-				out.add(s.with(id.Name+".Tail", false))
+				out.add(s.with(id.Name+".Tail", false)) // Go's zero value
+			}
+			return out
+		}
+		if name == "NewGenerator" || name == "NewSubGenerator" {
+			sum := it.ctor[name]
+			if sum == nil {
+				die("%s: no summary for constructor %s", it.fn, name)
+			}
+			it.gens[id.Name] = true
+			out := states{}
+			for _, s := range ss {
+				r := sum[0]
+				if sel, isSel := c.Fun.(*ast.SelectorExpr); isSel {
+					if x, isX := sel.X.(*ast.Ident); isX && it.gens[x.Name] && s.v[x.Name+".Tail"] {
+						r = sum[1]
+					}
+				}
+				if !r.f && !r.t {
+					die("%s: constructor %s has no result", it.fn, name)
+				}
+				if r.f {
+					out.add(s.with(id.Name+".Tail", false))
+				}
+				if r.t {
+					out.add(s.with(id.Name+".Tail", true))
+				}
 			}
 			return out
 		}
@@ -378,6 +443,13 @@ func (it *interp) block(list []ast.Stmt, ss states) states {
 }
 
 func (it *interp) doReturn(ss states) {
+	if it.inClosure > 0 {
+		// return from a local closure: the enclosing function's deferred calls do not run yet
+		for _, s := range ss {
+			it.ret.add(s)
+		}
+		return
+	}
 	for _, s := range ss {
 		cur := states{}
 		cur.add(state{v: s.v})
@@ -407,14 +479,14 @@ func (it *interp) stmt(st ast.Stmt, ss states) states {
 	case *ast.AssignStmt:
 		for _, r := range x.Rhs {
 			if fl, ok := r.(*ast.FuncLit); ok {
-				// a local closure (GenerateInclude's sourceItem): its body runs here, in the current flag state
-				save := it.ret
-				rs := states{}
-				it.ret = &rs
-				rest := it.block(fl.Body.List, ss)
-				it.ret = save
-				ss = union(union(ss, rest), rs)
-				continue
+				// a local closure (GenerateInclude's sourceItem): remembered, its body runs at every call
+				if len(x.Lhs) == 1 {
+					if id, isId := x.Lhs[0].(*ast.Ident); isId {
+						it.closures[id.Name] = fl
+						continue
+					}
+				}
+				die("%s: closure not assigned to a local variable", it.fn)
 			}
 			ss = it.calls(r, ss)
 		}
@@ -460,6 +532,15 @@ func (it *interp) stmt(st ast.Stmt, ss states) states {
 	case *ast.ReturnStmt:
 		for _, r := range x.Results {
 			ss = it.calls(r, ss)
+		}
+		if it.ctorRet != nil && len(x.Results) == 1 {
+			if id, ok := x.Results[0].(*ast.Ident); ok && it.gens[id.Name] {
+				for _, s := range ss {
+					it.ctorRet.put(s.v[id.Name+".Tail"])
+				}
+			} else {
+				die("%s: constructor returns something else than a local generator", it.fn)
+			}
 		}
 		it.doReturn(ss)
 		return states{}
@@ -635,17 +716,42 @@ func main() {
 		g  [2]bool
 	}
 	var gotos []gotoRec
+	ctor := map[string]*[2]bset{}
+	helper := map[string]*[2]bset{}
+	isCompiling := func(n string) bool { return strings.HasPrefix(n, "Generate") || strings.HasPrefix(n, "generate") }
+	rank := func(f fn) int {
+		switch {
+		case f.name == "NewGenerator":
+			return 0
+		case f.name == "NewSubGenerator":
+			return 1
+		case f.recv != "" && !isCompiling(f.name):
+			return 2
+		}
+		return 3
+	}
+	sort.SliceStable(fns, func(i, j int) bool { return rank(fns[i]) < rank(fns[j]) })
 	for _, f := range fns {
 		// only functions that mention a generator
 		txt := show(f.decl.Body)
-		if f.recv == "" && !strings.Contains(txt, "NewGenerator(") {
+		if f.recv == "" && !strings.Contains(txt, "NewGenerator(") && f.name != "NewGenerator" {
 			continue
 		}
 		smap := map[siteKey]*siteRec{}
 		var ex [2]bset
 		var gt [2]bool
 		for _, in := range []bool{false, true} {
-			it := &interp{fn: f.name, recv: f.recv, gens: map[string]bool{}, in: in, sites: smap, exits: &ex, gotos: &gt, methods: methods}
+			it := &interp{fn: f.name, recv: f.recv, gens: map[string]bool{}, in: in, sites: smap, exits: &ex, gotos: &gt, methods: methods, ctor: ctor, helper: helper, closures: map[string]*ast.FuncLit{}, running: map[string]bool{}}
+			if rank(f) <= 1 {
+				if ctor[f.name] == nil {
+					ctor[f.name] = &[2]bset{}
+				}
+				idx := 0
+				if in {
+					idx = 1
+				}
+				it.ctorRet = &ctor[f.name][idx]
+			}
 			init := state{v: map[string]bool{}}
 			if f.recv != "" {
 				it.gens[f.recv] = true
@@ -675,12 +781,19 @@ func main() {
 		for _, k := range keys {
 			sites = append(sites, smap[k])
 		}
-		if f.recv != "" && (strings.HasPrefix(f.name, "Generate") || strings.HasPrefix(f.name, "generate")) {
+		if f.recv != "" && isCompiling(f.name) {
 			exits = append(exits, exitRec{f.name, ex})
+		}
+		if rank(f) == 2 {
+			e := ex
+			helper[f.name] = &e
 		}
 		if gt[0] || gt[1] {
 			gotos = append(gotos, gotoRec{f.name, gt})
 		}
+	}
+	if ctor["NewGenerator"] == nil || ctor["NewSubGenerator"] == nil || helper["Reset"] == nil {
+		die("NewGenerator / NewSubGenerator / Generator.Reset not found")
 	}
 	if len(sites) < 30 || len(gotos) == 0 {
 		die("only %d sites / %d goto emitters found: the generator no longer has the shape this translator understands", len(sites), len(gotos))
@@ -716,7 +829,10 @@ func main() {
 		}
 		fmt.Fprintf(&b, "  mkGoto %s %v %v%s\n", coqStr(g.fn), g.g[0], g.g[1], sep)
 	}
-	b.WriteString("].\n")
+	b.WriteString("].\n\n(* Tail of the generator returned by the constructors, and the flag after Reset, by the receiver's flag *)\n")
+	fmt.Fprintf(&b, "Definition tail_new_generator : fset := %s.\n", ctor["NewGenerator"][0])
+	fmt.Fprintf(&b, "Definition tail_new_subgenerator : fset * fset := (%s, %s).\n", ctor["NewSubGenerator"][0], ctor["NewSubGenerator"][1])
+	fmt.Fprintf(&b, "Definition tail_after_reset : fset * fset := (%s, %s).\n", helper["Reset"][0], helper["Reset"][1])
 	if err := os.WriteFile(*outp, []byte(b.String()), 0o644); err != nil {
 		die("%v", err)
 	}
